@@ -43,8 +43,8 @@ def parseReq (toks : List String) : Option Req :=
   | ["c01.e2e", _mode, shards, _pad, inst, assign, recs] => do
       let w ← widthsOf inst
       let recs ← parseRecs recs
-      -- `rnd`: the fixture's seeded Random distribution (unobservable; the generator sends enough keys that
-      -- no shard stays empty): any assignment gives the same modelled result, round robin is used
+      -- `rnd`: the fixture's seeded Random distribution (unobservable): any assignment gives the same
+      -- modelled result, round robin is used
       let assign ← if assign = "rnd" then some (List.range recs.length) else parseNatList assign
       pure { w := w, shards := ← shards.toNat?, assign := assign, recs := recs }
   -- `Query::execute`: production instantiation, default padding, malicious contexts
@@ -79,16 +79,16 @@ def handle (toks : List String) : Option String :=
     | none => some "bad-request"
     | some r =>
       let shards := distribute r.shards r.assign r.recs
-      -- known finding F8: with more than one shard, a shard that enters with no rows while others
-      -- have rows leaves the collective shuffle and the query never completes
-      match runOutcome r.w aggChunk shards with
+      -- F8 (repaired): a shard without rows takes part in every collective step, so the query completes
+      -- whatever the shards hold (`query_completes_with_spec`: for ALL row counts observed after the
+      -- shuffles; the driver evaluates the counts of the canonical run)
+      match runOutcome r.w aggChunk shards (canonicalCounts r.w shards) with
       | none => some "hang"
       | some h => some (showNatList h)
   | "c01.query" :: _ =>
     -- the encrypted reports are first resharded by their unique tag (unobservable here), so the shard a
     -- report is received on does not determine where it is processed: by `pipeline_eq_spec` the result
-    -- does not depend on the distribution as long as no shard is left without rows (finding F8; the
-    -- generator sends >= 30 match keys to every shard)
+    -- does not depend on the distribution
     match parseReq toks with
     | none => some "bad-request"
     | some r => some (showNatList (run r.w aggChunk (distribute r.shards r.assign r.recs)))
